@@ -697,9 +697,9 @@ func (r *Run) staleCellIndex(fns []*Func) {
 						fitted = true
 						continue
 					}
-					if g := r.P.Funcs[f]; g != nil && f.Pkg() != nil && f.Pkg().Path() == pkgDagaz && !fitted && r.writesCells(g, 0, map[*Func]bool{}) {
+					if g := r.P.Funcs[f]; g != nil && f.Pkg() != nil && f.Pkg().Path() == pkgDagaz && r.writesCells(g, 0, map[*Func]bool{}) {
 						nFit++
-						r.CheckT("Q10", fn.Name+":fitted-before-written["+f.Name()+"]", false, ev.Pos, path,
+						r.CheckT("Q10", fn.Name+":fitted-before-written["+f.Name()+"]", fitted, ev.Pos, path,
 							"%s writes grid cells through %s before the grid was fitted to the sample on this path (the expansion comes later or not at all): a footprint that reaches past the current bounds is registered out of range", fn.Name, f.Name())
 					}
 				case EvAssign:
